@@ -428,7 +428,8 @@ class MoveGen:
         self.rng = rng
         self.feat = {"lookups": True, "unknown": 0.04, "closures": True, "recursion": True, "subs": True,
                      "early_return": False, "parallel": True, "devcalls": True, "gates": True, "fill": True,
-                     "measure": True, "assert": 0.02, "cz_positional": 0.0, "args_dependent": 0.7}
+                     "measure": True, "assert": 0.02, "cz_positional": 0.0, "args_dependent": 0.7,
+                     "dynamic_call": 0.0, "dead_effect": 0.0, "wrong_kind": 0.0}
         if feat:
             self.feat.update(feat)
         self.counter = 0
@@ -444,6 +445,9 @@ class MoveGen:
         # legitimately removed by DCE and then fails on no route
         if self.consumed and self.rng.random() < self.feat["unknown"]:
             return "zz"
+        if self.consumed and kind in ("intC", "floatC") and self.rng.random() < self.feat["wrong_kind"]:
+            # an id of the other constant table (may or may not exist in this one)
+            return self.rng.choice(KNOWN["floatC" if kind == "intC" else "intC"])
         return self.rng.choice(KNOWN[kind])
 
     def int_e(self, env, depth=2, typed=False):
@@ -457,7 +461,8 @@ class MoveGen:
             return ("var", self.rng.choice(ints))
         if r < 0.7:
             return P(self.rng.choice(["add", "sub", "mul"]), self.int_e(env, depth - 1, typed), self.int_e(env, depth - 1, typed))
-        if r < 0.76:
+        if r < 0.76 and not typed:
+            # kirin's type inference leaves // and % untyped
             return P(self.rng.choice(["floordiv", "mod"]), self.int_e(env, depth - 1, typed), L(self.rng.randrange(1, 4)))
         if r < 0.86 and self.feat["lookups"]:
             return ("look", "intC", self.name_for("intC"))
@@ -583,13 +588,13 @@ class MoveGen:
             return [("assign", acc, L(0)), ("for", v, L(self.rng.randrange(0, 2)), stop, L(self.rng.choice([1, 1, 2])), body)]
         if r < 0.92 and f["subs"] and env["subs"]:
             s = self.rng.choice(env["subs"])
-            call = ("call", s["name"], [self.int_e(env, 1) if k == "int" else self.grid_e(env) for k in s["kinds"]])
+            call = ("call", s["name"], [self.int_e(env, 1, typed=True) if k == "int" else self.grid_e(env) for k in s["kinds"]])
             if s["returns"] == "int":
                 x = self.fresh("r")
                 env["uint"].append(x)
                 return [("assign", x, call)]
             return [("expr", call)]
-        if r < 0.92 + f["assert"]:
+        if 0.92 <= r < 0.92 + f["assert"]:
             return [("assert", self.bool_e(env))]
         return [self.gate(env)] if f["gates"] else [("assign", self.fresh("u"), L(0))]
 
@@ -701,14 +706,35 @@ class MoveGen:
             nested[cname] = {"name": cname, "tweezer": False, "params": [("k", "int")], "body": cbody, "nested": {}}
             body.append(("assign", cname, ("lam", cname)))
             x = self.fresh("r")
-            body.append(("assign", x, ("callv", ("var", cname), [self.int_e(env, 1)])))
+            body.append(("assign", x, ("callv", ("var", cname), [self.int_e(env, 1, typed=True)])))
             env["uint"].append(x)
             if self.rng.random() < 0.4:
                 body += self.block(env, 1, False, 1)
                 body.append(("expr", ("callv", ("var", cname), [L(self.rng.randrange(0, 3))])))
+        force_ret = None
+        if self.rng.random() < self.feat["dead_effect"] and self.feat["gates"]:
+            # a device-visible statement no execution over the argument domain reaches
+            body.append(("if", P("gt", ("var", "n"), L(10 + self.rng.randrange(5))), [self.gate(env)], []))
+        if self.rng.random() < self.feat["dynamic_call"]:
+            # a closure handed to a subroutine that calls it: no constant hint at that call
+            cname = self.fresh("inner")
+            cenv = self.sub_env(env)
+            cenv["int"].append("k")
+            nested[cname] = {"name": cname, "tweezer": False, "params": [("k", "int")],
+                             "body": self.block(cenv, 0, True, self.rng.randrange(1, 3)) + [("ret", P("add", ("var", "k"), L(1)))],
+                             "nested": {}}
+            body.append(("assign", cname, ("lam", cname)))
+            # the result is returned, so that the (possibly pure) call cannot be removed as dead code
+            rv = self.fresh("r")
+            # (argument-dependent, so that it cannot be constant-folded either)
+            body.append(("assign", rv, ("call", "apply_fn", [("var", cname), ("var", self.rng.choice(["n", "m"]))])))
+            self.need_apply = True
+            force_ret = rv
         body += self.block(env, 1, False, self.rng.randrange(0, 3))
         r = self.rng.random()
-        if r < 0.4:
+        if force_ret is not None:
+            body.append(("ret", P("add", self.int_e(env, 1), ("var", force_ret))))
+        elif r < 0.4:
             body.append(("ret", self.int_e(env, 1)))
         elif r < 0.6 and env["grid"]:
             body.append(("ret", ("var", self.rng.choice(env["grid"]))))
@@ -716,4 +742,10 @@ class MoveGen:
             body.append(("ret", P("list", self.int_e(env, 1), self.float_e(env, 0))))
         main = {"name": "main", "tweezer": False, "params": params, "body": body, "nested": nested, "kinds": ["int", "int", "bool"]}
         args = [(self.rng.randrange(0, 4), self.rng.randrange(0, 3), self.rng.random() < 0.5) for _ in range(3)]
-        return kernels + subs + [main], args
+        extra = []
+        if getattr(self, "need_apply", False):
+            self.need_apply = False
+            extra = [{"name": "apply_fn", "tweezer": False, "params": [("f", None), ("k", "int")],
+                      "body": [("ret", ("callv", ("var", "f"), [("var", "k")]))], "nested": {}, "kinds": ["clos", "int"],
+                      "returns": "int"}]
+        return kernels + subs + extra + [main], args
